@@ -11,3 +11,4 @@ import Stingray.Props.C01
 import Stingray.Props.C06
 import Stingray.Props.C10
 import Stingray.Props.C07
+import Stingray.Props.C11
